@@ -242,6 +242,34 @@ fn message_prefix_errors(inp: u32) -> u32 {
     u32::min(err_start, err_end)
 }
 
+// Verification hooks: views of the private framer state and helpers
+#[cfg(feature = "verif-hooks")]
+#[allow(missing_docs)]
+pub mod verif_hooks {
+    use super::{Framer, State};
+
+    pub const PREFIX_SEARCH_LEN: u32 = Framer::PREFIX_SEARCH_LEN;
+
+    pub fn message_prefix_errors(inp: u32) -> u32 {
+        super::message_prefix_errors(inp)
+    }
+
+    /// Framer state in canonical text form
+    pub fn snapshot(framer: &Framer) -> String {
+        match &framer.state {
+            State::Idle => "idle".to_owned(),
+            State::PrefixSearch(word, count) => format!("search {:08x} {}", word, count),
+            State::DataRead(msg, invalid) => {
+                let mut s = format!("read {} ", invalid);
+                for b in msg {
+                    s.push_str(&format!("{:02x}", b));
+                }
+                s
+            }
+        }
+    }
+}
+
 #[cfg(test)]
 mod tests {
     use super::super::waveform;
